@@ -346,6 +346,7 @@ def r4_pure_shift(ctx):
             ctx.check(form_a or form_b, f.qual + f"#dest:{ax}:{tag}", "destination covers exactly the overlap of the shifted input with the detector" if form_a or form_b else f"axis {ax}: destination [{lo_t[:70]} : {hi_t[:70]}] is not the overlap of range(p, p + array_{ax}) with range(output_{ax})", where=f, node=pst.node)
             # on this (returning) path the overlap of this axis is known to be non-empty
             facts = {(canon(t), pol) for t, pol in q.cond_texts()}
+            facts |= {(canon(t), pol) for t, pol in q.implied_literals()}  # what the path's decisions imply together
             nonempty = set()
             for it_ in (inter, inter2):
                 for sz in (f"{it_}.size", f"len({it_})"):
@@ -395,6 +396,14 @@ READERS = {
 }
 
 
+class _Site:
+    """A result site: the statement and the value it contributes."""
+
+    def __init__(self, st, value):
+        self.st, self.value = st, value
+        self.lineno = getattr(st, "lineno", 0)
+
+
 def r6_handed_over_as_read(ctx):
     """"Read back with the same shape and values": in load_image the value returned for the lossless formats (.fits, .npy, text) is exactly what the format's reader returned - one store per branch, the reader call itself, nothing applied to the result afterwards (no squeeze / reshape / transpose / astype / slicing); load_table lets the separator sniffer see the whole text it then parses."""
     from sa.astutil import enclosing_tests, stores
@@ -402,24 +411,24 @@ def r6_handed_over_as_read(ctx):
     n = 0
     for q, readers in READERS.items():
         f = ctx.func(q)
-        rets = [r for r in returns_of(f) if r.value is not None]
-        names = {dotted(r.value) for r in rets}
-        ok = len(names) == 1 and None not in names
-        ctx.check(ok, q + "#returns-the-read-data", "returns the variable the branches fill, untouched" if ok else f"the return value is computed after the dispatch ({sorted(norm(r.value)[:40] for r in rets)}): the data is not handed over as read", where=f, node=rets[0] if rets else f.node)
-        if not ok:
-            continue
-        rv = next(iter(names))
+        # the result sites (sa/astutil.py:result_sites): `x = E ... return x` and `return E` are the same site
+        from sa.astutil import result_sites
+
         per_branch: dict[str, list] = {}
-        for st, t in stores(f.node, lambda t: dotted(t) == rv):
+        for st, v0 in result_sites(f):
             br = None
             for tt, pol in enclosing_tests(st):
                 txt = norm(tt)
                 if pol and "suffix.startswith" in txt:
                     br = next((k for k in readers if repr(k) in txt), "other")
             if br is None:
-                ctx.fail(q + "#as-read", f"`{norm(st)[:70]}` changes the loaded data outside the format dispatch: every format is post-processed (shape / values no longer those of the file)", where=f, node=st)
+                if isinstance(st, ast.Return):
+                    ctx.fail(q + "#returns-the-read-data", f"the return value is computed after the dispatch (`{norm(v0)[:60]}`): the data is not handed over as read", where=f, node=st)
+                else:
+                    ctx.fail(q + "#as-read", f"`{norm(st)[:70]}` changes the loaded data outside the format dispatch: every format is post-processed (shape / values no longer those of the file)", where=f, node=st)
                 continue
-            per_branch.setdefault(br, []).append(st)
+            per_branch.setdefault(br, []).append(_Site(st, v0))
+        ctx.check(bool(per_branch), q + "#returns-the-read-data", "every result is produced inside the format dispatch" if per_branch else "no result site found inside the format dispatch", where=f, node=f.node)
         for br, fns in readers.items():
             sts = per_branch.get(br, [])
             n += 1
@@ -439,7 +448,7 @@ def r6_handed_over_as_read(ctx):
                     ok = None
             if ok is None:
                 continue
-            ctx.check(ok, q + f"#as-read:{br}", f"{br}: the result of {fns[0]}(...) is returned as read" if ok else (f"{br}: the loaded array is rewritten {len(sts)} times in its branch (`{norm(sts[-1])[:60]}`): shape / values are not those stored in the file" if len(sts) != 1 else f"{br}: the branch stores `{norm(val)[:60]}` instead of the reader's result"), where=f, node=sts[-1] if sts else f.node)
+            ctx.check(ok, q + f"#as-read:{br}", f"{br}: the result of {fns[0]}(...) is returned as read" if ok else (f"{br}: the loaded array is rewritten {len(sts)} times in its branch (`{norm(sts[-1].st)[:60]}`): shape / values are not those stored in the file" if len(sts) != 1 else f"{br}: the branch stores `{norm(val)[:60]}` instead of the reader's result"), where=f, node=sts[-1].st if sts else f.node)
     f = ctx.func(f"{LD}:load_table")
     sn = [c for c in calls_in(f.node) if isinstance(c.func, ast.Attribute) and c.func.attr == "sniff"]
     rd = [c for c in calls_in(f.node) if call_name(c) == "StringIO" and c.args]
